@@ -72,7 +72,7 @@ def run(ctx):
     # exhaustive WITHOUT the history variable (2 clients, programs up to 6 calls): design-level invariants only
     big = ctx.tlc("MC_C15", "MC_C15_thorough.cfg", name="MC_C15_big", workers=vlib.NCPU, timeout=3000)
     # random maximal paths of that bigger model as scripts
-    sim = ctx.tlc("MC_C15", "MC_C15_sim.cfg", name="MC_C15_sim", workers=1, timeout=3000, simulate="num=%d" % (8000 if thorough else 1000), depth=90)
+    sim = ctx.tlc("MC_C15", "MC_C15_sim.cfg", name="MC_C15_sim", workers=1, timeout=3000, simulate="num=%d" % (30000 if thorough else 1000), depth=90)
     variant = ctx.tlc("MC_C15", "MC_C15_variant.cfg", name="MC_C15_variant", workers=2, timeout=600, tolerate_violation=True)
     ctx.notes.append("spec mutation (an exiting loop closes the CURRENT listener): ServingWhileRunning -> %s" % (variant.violated or "NOT violated"))
     if not variant.violated:
@@ -85,11 +85,11 @@ def run(ctx):
     if ctx.replay:
         chosen, nshapes = [json.load(open(ctx.replay))["scenario"]], 1
     else:
-        chosen, nshapes = select(scripts, 8000 if thorough else 2500, rng)
-        tsel, tshapes = select([t for t in tls_scripts if any(st[0] == "dial" and st[2] == "tls" for st in t["script"])], 2000 if thorough else 600, rng)
+        chosen, nshapes = select(scripts, 20000 if thorough else 2500, rng)
+        tsel, tshapes = select([t for t in tls_scripts if any(st[0] == "dial" and st[2] == "tls" for st in t["script"])], 6000 if thorough else 600, rng)
         chosen += tsel
         nshapes += tshapes
-        ssel, sshapes = select([json.loads(x) for x in sim.scenarios], 8000 if thorough else 1000, rng)
+        ssel, sshapes = select([json.loads(x) for x in sim.scenarios], 30000 if thorough else 1000, rng)
         chosen += ssel
         nshapes += sshapes
     ctx.stage("generate")
